@@ -432,7 +432,19 @@ TEscSweep ==
   /\ l' = l + 1 /\ cnt' = Bump({"escsweep-blocks"})
   /\ UNCHANGED <<pc, G, tcs, run, memo>>
 
-Next == \/ TEscSweep \/ THist \/ TMulti \/ TCli \/ TGroup \/ TTc \/ TEnd \/ TRun \/ TPre \/ TCl0 \/ TCl1 \/ TCl2 \/ TTrie \/ TMin
+(***************************************************************************)
+(* C07 on large inputs (one fresh process each): a panic or an abort is a  *)
+(* violation, running out of time is inconclusive; an engine-bound result  *)
+(* must parse.                                                             *)
+(***************************************************************************)
+TLarge ==
+  /\ IsEvent("large") /\ pc = "idle"
+  /\ JudgeH(Ev.outcome \in {"ok", "timeout"}, {"C07"}, "large-" \o Ev.outcome, Ev.h, 0, "")
+  /\ JudgeH(Ev.outcome # "ok" \/ ~Ev.engine \/ Ev.valid, {"C07"}, "large-invalid", Ev.h, 0, "")
+  /\ l' = l + 1 /\ cnt' = Bump({"large", "large-" \o Ev.outcome})
+  /\ UNCHANGED <<pc, G, tcs, run, memo>>
+
+Next == \/ TLarge \/ TEscSweep \/ THist \/ TMulti \/ TCli \/ TGroup \/ TTc \/ TEnd \/ TRun \/ TPre \/ TCl0 \/ TCl1 \/ TCl2 \/ TTrie \/ TMin
         \/ TExpr \/ TSelfCheck \/ TFallback \/ TFinal \/ TOutPanic \/ TOut \/ TObs
 
 Spec == Init /\ [][Next]_vars
